@@ -118,10 +118,12 @@ class EventData(object):
         result = self.__event.wait(timeout)
         # pylint: disable=E0702
         # Pylint seems to miss the "is None" check below
-        if self.__exception is None:
-            return result
-        else:
+        if result and self.__exception is not None:
+            # (the exception is stored just before the event is set: it
+            # must not be raised on a timeout, while the event is not set)
             raise self.__exception
+
+        return result
 
 
 class FutureResult(object):
@@ -176,11 +178,22 @@ class FutureResult(object):
         :param extra: Extra parameter to be given to the callback method
         """
         with self.__lock:
-            self.__callback = method
-            self.__extra = extra
+            done = self._done_event.is_set()
+            if not done:
+                self.__callback = method
+                self.__extra = extra
 
-        if self._done_event.is_set():
-            # The execution has already finished
+        if done:
+            # The execution has already finished: call this very method back
+            # (another thread might be registering its own one right now)
+            try:
+                method(
+                    self._done_event.data, self._done_event.exception, extra
+                )
+            except Exception as ex:
+                self._logger.exception("Error calling back method: %s", ex)
+        elif self._done_event.is_set():
+            # The execution finished in the meantime
             self.__notify()
 
     def execute(self, method, args, kwargs):
